@@ -61,19 +61,29 @@ def g1_permutation_gate(F, r):
     fn = F.fns[tp]
     # Some(new_tour) dominated by the true edge of len == len
     somes = []
+    payloads = []
+    memo = {}
     for bi, si, s in mir.stmts(fn):
         if s["d"]["l"] == 0 and not s["d"]["p"] and s["r"]["k"] == "agg" and s["r"].get("n", "").endswith("Option#Some"):
             somes.append(bi)
+            payloads.append(mir.expr(fn, s["r"]["o"][0], 0, memo)[0])
     gates = []
     for bi, si, s in mir.stmts(fn):
         rv = s["r"]
-        if rv["k"] == "bin" and rv["op"] == "Eq" and rv["ty"] == "usize":
-            la = {fn["bbs"][v]["t"]["callee"].split("::")[-1] for k, v, p in mir.trace(fn, rv["o"][0]) if k == "call"}
-            lb = {fn["bbs"][v]["t"]["callee"].split("::")[-1] for k, v, p in mir.trace(fn, rv["o"][1]) if k == "call"}
-            if "len" in la and "len" in lb:
+        if rv["k"] == "bin" and rv["op"] in ("Eq", "Ne") and rv["ty"] == "usize":
+            sides = []
+            for o in rv["o"]:
+                lens = [fn["bbs"][v]["t"] for k, v, p in mir.trace(fn, o) if k == "call" and fn["bbs"][v]["t"]["callee"].split("::")[-1] == "len"]
+                sides.append(lens)
+            if sides[0] and sides[1]:
+                # the gate counts only if one of the two lengths is the length of the path that is returned
+                of_payload = any(mir.expr(fn, t["args"][0], 0, memo)[0] in payloads for side in sides for t in side if t["args"])
                 sw = fn["bbs"][bi]["t"]
-                if sw["k"] == "switch":
-                    gates.append((bi, sw["else"]))
+                if sw["k"] == "switch" and of_payload:
+                    zero = [tb for v, tb in sw["tg"] if v == 0]
+                    equal_edge = sw["else"] if rv["op"] == "Eq" else (zero[0] if zero else None)
+                    if equal_edge is not None:
+                        gates.append((bi, equal_edge))
     if somes and gates and all(b not in mir.reach(fn, [0], blocked_edges=gates) for b in somes):
         r.ok("try_path: length gate", "Some(path) only when new_tour.len() == self.len()")
     else:
